@@ -26,3 +26,25 @@ PROPS["C01"] = dict(
 
 J(name="c01.isValidCell", props=["C01", "C12", "C18"], harness="c01_isValidCell.c", entry="h_isValidCell",
   enforce=["isValidCell"], replay=dict(fn="isValidCell", args=["h"]))
+
+# ------------------------------------------------------------------ C20
+PROPS["C20"] = dict(
+    level="proof",
+    explanation="library half of the round trip proved by enforced contracts on h3ToString/stringToH3 (size guard, frame, exactly one "
+                "formatter/parser call with format \"%lx\" on the full 64-bit value, return codes); libc half assumed",
+    trusted_base=["ASSUMED contracts of sprintf/sscanf for the format \"%lx\" (contracts/c20.contracts.h): lowercase unpadded hex, "
+                  "1..16 digits + NUL; the parser inverts the formatter and stores nothing unless it returns 1"],
+    not_decided=["that the C library's sprintf(\"%lx\") really prints lowercase unpadded hexadecimal and sscanf inverts it (assumed)"],
+    assumptions=["PRIx64 expands to \"lx\" on this platform (checked: the call-site precondition compares the real format bytes)"],
+    level_text="Unbounded proof of every clause that is about h3 code: for all 2^64 h and all buffer sizes, h3ToString refuses sz<17 "
+               "without touching the buffer (frame condition) and otherwise makes exactly one formatter call with format %lx, the full "
+               "64-bit h and the caller's buffer; stringToH3 makes one parser call and returns its value or E_FAILED leaving *out "
+               "untouched; the round trip is a lemma composed from the contracts.",
+    level_note="The behaviour of libc's sprintf/sscanf for \"%lx\" is an assumed contract (its preconditions are checked at the real "
+               "call sites). Trusts CBMC/DFCC/MiniSat.")
+J(name="c20.h3ToString", props=["C20", "C12", "C18"], harness="c20.c", entry="h_h3ToString",
+  enforce=["h3ToString"], replace=["h3v_sprintf_lx"], replay=dict(fn="h3ToString", args=["h", "sz"]))
+J(name="c20.stringToH3", props=["C20", "C12", "C18"], harness="c20.c", entry="h_stringToH3",
+  enforce=["stringToH3"], replace=["h3v_sscanf_lx"], replay=dict(fn="stringToH3", args=[]))
+J(name="c20.roundtrip", props=["C20"], harness="c20.c", entry="h_roundtrip",
+  replace=["h3ToString", "stringToH3"], replay=dict(fn="h3ToString", args=["h", "=17"]))
